@@ -118,3 +118,30 @@ Proof.
   - destruct (ts_multi_same_decls uc cfg st_i (op_data p)) as (S1 & _ & _). exact (S1 _ _ Eds).
   - exact (c01_multi_file_ts _ _ _ _ _ _ Eds).
 Qed.
+
+(* Python, whose state is the richest (import table, type variables, translated types): no invariant on the state and
+   no domain hypothesis on the crates is needed for the declarations *)
+Theorem c01_multi_run_py uc cfg st0 plan files fin :
+  generate_crates (py_multi_gen uc cfg) st0 plan = (files, fin) ->
+  forall i fname text,
+    nth_error files i = Some (fname, Writer.Generated text) ->
+    exists p st_i st_i' ds,
+      nth_error plan i = Some p /\ fname = op_file p /\
+      py_generate_multi uc cfg st_i (op_data p) = Ok (text, st_i') /\
+      py_multi_decls uc cfg st_i (op_data p) = Ok (ds, st_i') /\
+      text = py_begin_file cfg ++ py_write_all_imports st_i' ++ py_write_custom_translations st_i' ++
+             List.concat (map py_render_decl ds) /\
+      (exists st1, py_decls uc cfg (op_data p) = Ok (ds, st1)) /\
+      exists items, Permutation items (items_of (op_data p)) /\
+                    groups_fit Python (flat_map ir_groups items) (obs_groups (flat_map py_obs ds)).
+Proof.
+  intros H i fname text Hn.
+  destruct (cm_crates_file (py_multi_gen uc cfg) (fun _ => True) (fun _ => True) (fun _ _ _ _ _ _ _ => I)
+              plan st0 files fin i fname text I H Hn) as (p & st_i & st_i' & Hp & Hf & _ & _ & Hg).
+  { apply Forall_forall. intros; exact I. }
+  unfold py_multi_gen in Hg. pose proof Hg as Hg'. apply py_multi_layout in Hg' as (ds & Eds & Etext).
+  exists p, st_i, st_i', ds. split; [exact Hp|]. split; [exact Hf|]. split; [exact Hg|]. split; [exact Eds|].
+  split; [exact Etext|]. split.
+  - destruct (py_multi_same_decls uc cfg st_i (op_data p)) as (S1 & _ & _). exact (S1 _ _ Eds).
+  - exact (c01_multi_file_py _ _ _ _ _ _ Eds).
+Qed.
